@@ -103,24 +103,23 @@ fn read_selector_table(src: &mut &[u8]) -> io::Result<Vec<u8>> {
 }
 
 pub fn read_array(src: &mut &[u8], n: usize) -> io::Result<Vec<u8>> {
-    let (mut j, mut z) = (0, 0);
+    let mut z = 0;
     let mut last = 0;
 
-    let mut runs = vec![0; n];
+    // The number of runs is not bounded by `n`, e.g., when there are empty runs.
+    let mut runs = Vec::new();
 
     while z < n {
         let run = read_u8(src)?;
 
-        runs[j] = run;
-        j += 1;
+        runs.push(run);
         z += usize::from(run);
 
         if run == last {
             let copy = read_u8(src)?;
 
             for _ in 0..copy {
-                runs[j] = run;
-                j += 1;
+                runs.push(run);
             }
 
             z += usize::from(run) * usize::from(copy);
@@ -131,16 +130,15 @@ pub fn read_array(src: &mut &[u8], n: usize) -> io::Result<Vec<u8>> {
 
     let mut a = vec![0; n];
 
+    let mut runs = runs.into_iter();
     let mut i = 0;
-    j = 0;
     z = 0;
 
     while z < n {
         let mut run_len = 0;
 
         loop {
-            let part = runs[j];
-            j += 1;
+            let part = runs.next().ok_or_else(invalid_array_error)?;
             run_len += usize::from(part);
 
             if part != 255 {
@@ -148,13 +146,64 @@ pub fn read_array(src: &mut &[u8], n: usize) -> io::Result<Vec<u8>> {
             }
         }
 
-        for _ in 0..run_len {
-            a[z] = i;
-            z += 1;
+        if run_len > 0 {
+            let sym = u8::try_from(i).map_err(|_| invalid_array_error())?;
+
+            a.get_mut(z..z + run_len)
+                .ok_or_else(invalid_array_error)?
+                .fill(sym);
+
+            z += run_len;
         }
 
         i += 1;
     }
 
     Ok(a)
+}
+
+fn invalid_array_error() -> io::Error {
+    io::Error::new(io::ErrorKind::InvalidData, "invalid array")
+}
+
+#[cfg(test)]
+mod tests {
+    use super::*;
+
+    #[test]
+    fn test_read_array() -> io::Result<()> {
+        let src = [0x02, 0x00, 0x03];
+        assert_eq!(read_array(&mut &src[..], 5)?, [0, 0, 2, 2, 2]);
+
+        // 0 * 255 + 1, 1 * 1
+        let src = [0xff, 0x01, 0x01, 0x00];
+        let actual = read_array(&mut &src[..], 257)?;
+        assert!(actual[..256].iter().all(|&n| n == 0));
+        assert_eq!(actual[256], 1);
+
+        // The number of runs is greater than the array length.
+        let src = [0x01, 0x00, 0x00, 0x03, 0x01];
+        assert_eq!(read_array(&mut &src[..], 2)?, [0, 6]);
+
+        Ok(())
+    }
+
+    #[test]
+    fn test_read_array_with_invalid_runs() {
+        fn t(src: &[u8], n: usize) {
+            let mut src = src;
+
+            assert!(matches!(
+                read_array(&mut src, n),
+                Err(e) if e.kind() == io::ErrorKind::InvalidData
+            ));
+        }
+
+        // The runs are longer than the array.
+        t(&[0x02, 0x03], 4);
+        // The last run is unterminated.
+        t(&[0xff, 0xff, 0x00], 300);
+        // There are more than 256 runs.
+        t(&[0x00, 0xff, 0x00, 0x02, 0x01], 1);
+    }
 }
